@@ -370,7 +370,7 @@ func runC13(r *Run) {
 			if ri.Class != core.RetSuccess {
 				continue
 			}
-			t := ff.TB.Of(ri.Ret.Results[0])
+			t := ff.TB.Of(core.RetOp(ri.Ret, 0))
 			ops, _ := appendChain(nil)
 			_ = ops
 			if core.HasFact(ri.Facts, `cmp($1.CoreIndex.ProvisionalIndexFileURI == "")`) {
